@@ -199,9 +199,32 @@ def run(tier, seed):
         B.add((lambda rr, title=title, replace=replace: S.add(title, "include/xsimd/types/xsimd_batch_constant.hpp", rr, replaced=[x[-40:] for x in replace])),
               wd, "k%04d" % jobs.index(j), j["out"], "".join(txt), "\n".join(H) + "\n", name, replace=replace, attempts=(("concrete", "sat", 200), ("concrete", "cadical", 400)))
     B.run()
+    # ---- APIs taking a constant: select(batch_bool_constant, a, b) at kernel and API level against the run-time select of the converted mask
+    stu = ["#include <xsimd/xsimd.hpp>", "#include <cstdint>"]
+    sroots = []
+    sk = 0
+    for a in (archs if tier == "quick" else [x for x in X86_ARCHS if ARCHS[x][3]]):
+        A = ARCHS[a][0]
+        for t in (["i8", "u16", "i32", "f64"] if tier == "quick" else ALL_TYPES):
+            T = TYPES[t][0]
+            n = lanes(t, a)
+            pats = [[i == n - 3 for i in range(n)], [i != 1 for i in range(n)], [i < n // 2 for i in range(n)], [rnd.randint(0, 1) == 1 for _ in range(n)]]
+            for pat in pats[: (3 if tier == "quick" else 4)]:
+                C = "xsimd::batch_bool_constant<%s, %s, %s>" % (T, A, ", ".join("true" if b_ else "false" for b_ in pat))
+                stu.append('extern "C" void e_s%d(xsimd::batch<%s, %s>* r, xsimd::batch<%s, %s> const* a, xsimd::batch<%s, %s> const* b) { *r = xsimd::select(%s{}, *a, *b); }'
+                           % (sk, T, A, T, A, T, A, C))
+                sroots.append("e_s%d" % sk)
+                sk += 1
+    from . import table
+    rep2 = check.run_groups("C19", {"constsel": ("\n".join(stu) + "\n", sroots)}, tier, seed, props_filter=lambda fn: table.prop_of(fn) == "C19")
+    for t in rep2.targets:
+        S.add(t["dem"], "%s:%s" % (t["file"], t["line"]), {"status": t["status"], "n_props": t["n_props"], "mode": t["mode"], "backend": t["backend"], "seconds": t["seconds"],
+                                                         "detail": t["detail"], "failed": t["failed"], "stem": t["stem"], "sample_props": []}, replaced=t["replaced"])
+    rep.infra += rep2.infra
+    shutil.rmtree(rep2.wd, ignore_errors=True)
     rep.notes["exhaustive"] = False
     rep.notes["program_space"] = {"architectures": archs, "element_types": types, "constant_instantiations": len(insts), "expected_packs": len(expected), "seed": seed,
                                   "families": "one-hot, all-but-one, iota, reversed iota, seeded random; boolean one-hot / all-but-one / random; + - * & | ^ unary- ~ at type level"}
     rep.assumptions += ["the template-argument (program) space is sampled, not enumerated: evidence gives the counts",
-                        "constant-taking swizzle/shuffle/insert/slide/rotate kernels are proved against the pack-indexed map in C05; select(batch_bool_constant) via as_batch_bool"]
+                        "constant-taking swizzle/shuffle/insert/slide/rotate kernels are proved against the pack-indexed map in C05; select(batch_bool_constant) kernels and API against the constant mask (sampled patterns)"]
     return special.finish_special(rep, "C19")
